@@ -257,6 +257,13 @@ class C19(Prop):
                                 "written (now %r) | junk=%r" % (name, missing, [x[0] for x in got[1]][:12] if got[0] == "items" else got[0],
                                                                 [t[:60] for _, t in junk]))
                     break
+            if not res.violations:
+                # a junk line can at most add one item of its own: lines of other sections must not show up a second time
+                extra = sum(max(0, len(got[1]) - len(gsecs[name][1])) for name, got in tsecs.items()
+                            if got[0] == "items" and name in gsecs and gsecs[name][0] == "items")
+                if extra > len(junk):
+                    res.violate("C19.interference", "%d junk lines but %d additional header items appeared | junk=%r" % (
+                        len(junk), extra, [t[:60] for _, t in junk]))
             if not res.violations and tdata != gdata:
                 res.violate("C19.interference", "curve data changed | junk=%r" % ([t[:60] for _, t in junk],))
             # without the flag: success or LASHeaderError naming the line
